@@ -198,6 +198,18 @@ class Executor(object):
             t = self.models.truth(self, st, v)
             if t is not None:
                 return t
+            if v.kind in SIZED_KINDS:
+                # a container: true iff non-empty -- decided from its modelled size, never assumed
+                for f in ("len", "length"):
+                    ln = st.get(v, f)
+                    if isinstance(ln, VT) and ln.t.sort == INT:
+                        return tm.lt(0, ln.t)
+                raise Unsupported("truth of a %s whose size is not modelled" % v.kind)
+            ci = self.repo.find_class(v.kind)
+            if ci is not None:
+                for c in self.kind_mro(v.kind):
+                    if isinstance(c, ClassInfo) and ("__len__" in c.methods or "__bool__" in c.methods):
+                        raise Unsupported("truth of a %s goes through its __len__ / __bool__" % v.kind)
             return tm.TRUE
         if isinstance(v, (VClass, VFunc, VBound, VModel, VModule)):
             return tm.TRUE
@@ -872,6 +884,20 @@ class Executor(object):
 
         return self.bind(self.eval(node.value, st, fr), fn)
 
+    def e_YieldFrom(self, node, st, fr):
+        """`yield from X` for an X that yields a known sequence of strings: the ghost sequence grows by all of X"""
+        if "yielded" not in st.ghost:
+            raise Unsupported("yield from outside a generator function under execution")
+
+        def fn(s, v):
+            if not (isinstance(v, VT) and v.t.sort == tm.seq_sort(STR)):
+                raise Unsupported("yield from %r" % (v,))
+            s = s.fork()
+            s.ghost["yielded"] = v.t if s.ghost["yielded"].op == "seq.empty" else tm.seqcat(s.ghost["yielded"], v.t)
+            return [(s, "ok", NONE)]
+
+        return self.bind(self.eval(node.value, st, fr), fn)
+
     def e_Lambda(self, node, st, fr):
         raise Unsupported("lambda")
 
@@ -1371,6 +1397,11 @@ class Executor(object):
             return self.raise_(st, "IndexError")
         if isinstance(o, VObj):
             return self.call_method(o, "__setitem__", [k, v], {}, st, fr)
+        hook = getattr(self.models, "store_item", None)
+        if hook is not None:
+            r = hook(self, st, fr, o, k, v)
+            if r is not None:
+                return r
         raise Unsupported("item store on %r" % (o,))
 
     def s_AugAssign(self, node, st, fr):
@@ -1409,7 +1440,7 @@ class Executor(object):
                 for (s2, tag2, cm) in self.eval(item.context_expr, s, fr):
                     if tag2 != "ok":
                         nxt.append((s2, tag2, cm))
-                    elif not (isinstance(cm, VObj) and cm.kind == "ctx:transparent"):
+                    elif not (isinstance(cm, VObj) and (cm.kind == "ctx:transparent" or cm.kind in getattr(self.models, "TRANSPARENT_CTX", ()))):
                         raise Unsupported("with-statement over %r" % (cm,))
                     elif item.optional_vars is not None:
                         nxt.extend(self.assign(item.optional_vars, cm, s2, fr))
@@ -1589,6 +1620,12 @@ class Executor(object):
 
     def s_Assert(self, node, st, fr):
         return [(st, "ok", None)]
+
+
+# modelled dependency objects that are containers (python: false when empty)
+SIZED_KINDS = {"LetAnn", "symlist", "range", "MapValues", "LetAnnItems", "LabelSet", "LabelList", "PySet", "QualsAbs", "QualDict",
+               "QualDictIdx", "ClassDict", "CitList", "CitListIdx", "CassSet", "FragTuple", "CitSnapshot", "MemberRegistry",
+               "dict_keyiterator"}
 
 
 def _has_yield(fnode):
